@@ -11,6 +11,7 @@ import (
 	"golang.org/x/tools/go/packages"
 
 	"rocheck/internal/check"
+	"rocheck/internal/load"
 	"rocheck/internal/model"
 )
 
@@ -231,6 +232,116 @@ func ruleCountOnce() check.Rule {
 					for i, x := range mcs {
 						if x.name == "Inc" && !x.top {
 							c.Violation(fmt.Sprintf("%s/aggregate-counter#%d", sc, i+1), x.call.Pos(), "aggregate counter is incremented conditionally: the exported totals no longer equal the number of events")
+						}
+					}
+				}
+			}
+		},
+	}
+}
+
+// METRICS-WIRED: every metric handed to an instrumentation function is updated, every metric of the collector is exported.
+func ruleMetricsWired() check.Rule {
+	return check.Rule{
+		Name: "METRICS-WIRED",
+		Doc:  "in the Prometheus plugin every parameter of a metric type (a type with an Inc, Add or Observe method: Counter, Gauge, Observer, Summary, Histogram) of a function is the receiver of a metric update or is passed on somewhere in that function; and every field of the collector struct whose type has Describe and Collect methods is described in Describe and collected in Collect: a counter that is created, registered and never incremented exports a constant zero",
+		Run: func(c *check.Ctx) {
+			p := c.Prog.ByPath[PromPkg]
+			if p == nil {
+				c.Undecided("prometheus/loaded", c.M.Obj.Ro.Syntax[0].Pos(), "package not loaded")
+				return
+			}
+			info := p.TypesInfo
+			hasMethod := func(t types.Type, names ...string) bool {
+				for _, n := range names {
+					if o, _, _ := types.LookupFieldOrMethod(t, true, p.Types, n); o != nil {
+						if _, isFn := o.(*types.Func); isFn {
+							return true
+						}
+					}
+				}
+				return false
+			}
+			nParams := 0
+			for _, f := range p.Syntax {
+				if strings.HasSuffix(c.Prog.Fset.Position(f.Pos()).Filename, "_test.go") {
+					continue
+				}
+				for _, d := range f.Decls {
+					fd, ok := d.(*ast.FuncDecl)
+					if !ok || fd.Body == nil || check.IsControlName(fd.Name.Name) {
+						continue
+					}
+					for _, pv := range model.FlattenParams(info, fd.Type.Params) {
+						if pv == nil || pv.Name() == "_" || pv.Name() == "" {
+							continue
+						}
+						if _, isIface := pv.Type().Underlying().(*types.Interface); !isIface {
+							if _, isPtr := pv.Type().Underlying().(*types.Pointer); !isPtr {
+								continue
+							}
+						}
+						if !hasMethod(pv.Type(), "Inc", "Observe") {
+							continue
+						}
+						nParams++
+						used := false
+						ast.Inspect(fd.Body, func(x ast.Node) bool {
+							if id, ok := x.(*ast.Ident); ok && info.Uses[id] == types.Object(pv) {
+								used = true
+							}
+							return !used
+						})
+						key := fmt.Sprintf("%s.%s/metric-param-%s", model.ShortPkg(PromPkg), fd.Name.Name, pv.Name())
+						if used {
+							c.OK(key, pv.Pos(), "the metric is updated or passed on")
+						} else {
+							c.Violation(key, pv.Pos(), "metric parameter %q of %s is never updated nor passed on: the exported series stays at zero whatever flows through the pipeline", pv.Name(), fd.Name.Name)
+						}
+					}
+				}
+			}
+			c.Inc("metric_params", nParams)
+			// the collector exports all its metrics
+			for _, name := range p.Types.Scope().Names() {
+				tn, ok := p.Types.Scope().Lookup(name).(*types.TypeName)
+				if !ok {
+					continue
+				}
+				st, ok := tn.Type().Underlying().(*types.Struct)
+				if !ok || !hasMethod(types.NewPointer(tn.Type()), "Describe") || !hasMethod(types.NewPointer(tn.Type()), "Collect") {
+					continue
+				}
+				for _, mn := range []string{"Describe", "Collect"} {
+					fd := load.FuncDeclOf(p, name+"."+mn)
+					if fd == nil || fd.Body == nil {
+						continue
+					}
+					rv := recvObj(info, fd)
+					for i := 0; i < st.NumFields(); i++ {
+						fld := st.Field(i)
+						if !hasMethod(fld.Type(), "Describe") || !hasMethod(fld.Type(), "Collect") {
+							continue
+						}
+						c.Inc("collector_fields", 1)
+						found := false
+						ast.Inspect(fd.Body, func(x ast.Node) bool {
+							call, ok := x.(*ast.CallExpr)
+							if !ok {
+								return true
+							}
+							if sel, ok := ast.Unparen(call.Fun).(*ast.SelectorExpr); ok && sel.Sel.Name == mn {
+								if fs := fieldSelOf(info, sel.X, rv); fs != nil && fs.Sel.Name == fld.Name() {
+									found = true
+								}
+							}
+							return !found
+						})
+						key := fmt.Sprintf("%s.%s.%s/exports-%s", model.ShortPkg(PromPkg), name, mn, fld.Name())
+						if found {
+							c.OK(key, fd.Pos(), "%s of %s is forwarded", mn, fld.Name())
+						} else {
+							c.Violation(key, fd.Pos(), "%s.%s does not forward to the metric %s: that series is never exported", name, mn, fld.Name())
 						}
 					}
 				}
@@ -556,7 +667,7 @@ func C19() *check.Property {
 		Title:    "Prometheus instrumentation is transparent and its counters are exact",
 		Patterns: cat(CorePatterns, []string{PromPkg}),
 		Scope:    []string{PromPkg},
-		Rules:    []check.Rule{ruleForwarder(), ruleCountOnce(), ruleLicenceArms(), rulePipeArms(), ruleRelease(), ruleNoDowngrade(), ruleStateLevel(), ruleCtxProvenance()},
+		Rules:    []check.Rule{ruleForwarder(), ruleCountOnce(), ruleMetricsWired(), ruleLicenceArms(), rulePipeArms(), ruleRelease(), ruleNoDowngrade(), ruleStateLevel(), ruleCtxProvenance()},
 		Explanation: "Static check on ee/plugins/prometheus (the OpenTelemetry plugin cannot be type-checked offline and is out of reach). FORWARDER proves each instrumentation operator is the identity on notifications and contexts (one upstream site with the subscriber context; " +
 			"each slot forwards exactly once, unconditionally, its own payload with a context derived from the one it received; or the destination itself is handed upstream); with C01-C03 for the core this is transparency. COUNT-ONCE proves each metric update sits in the slot " +
 			"its operator's name says and runs at most once per event, before forwarding for the stand-alone counters. LICENCE-BOTH-ARMS proves the licence is evaluated at subscription time and selects between compositions built from the same operators; " +
